@@ -109,6 +109,8 @@ type world struct {
 	users  map[string]*user
 	saved  map[string]*user // reference table at the last ACL SAVE (nil = never saved)
 	closed []bool
+	// adminAuthFailed: the administrator could not authenticate after a (re)start (reported by the caller)
+	adminAuthFailed string
 }
 
 func (w *world) start(t interface{ Fatalf(string, ...any) }) {
@@ -118,8 +120,15 @@ func (w *world) start(t interface{ Fatalf(string, ...any) }) {
 		t.Fatalf("HARNESS-ERROR: %v", err)
 	}
 	w.admin = w.dial(t)
-	if r := w.admin.Do("AUTH", "adminpw"); r.Val.IsErr() {
-		t.Fatalf("HARNESS-ERROR: admin AUTH: %s", r.String())
+	// the administrator authenticates with a password the reference table holds for the default user
+	adminPw := "adminpw"
+	if d := w.users["default"]; d != nil && !d.Plain["adminpw"] {
+		for p := range d.Plain {
+			adminPw = p
+		}
+	}
+	if r := w.admin.Do("AUTH", adminPw); r.Val.IsErr() {
+		w.adminAuthFailed = fmt.Sprintf("after the (re)start the default user's password %q from the reference table is refused: %s", adminPw, r.String())
 	}
 	w.conns, w.who, w.closed = nil, nil, nil
 	for i := 0; i < 3; i++ {
@@ -204,9 +213,28 @@ var pwPool = []string{"p1", "p2", "secret", "adminpw", "x"}
 func genStep(t *rapid.T, w *world) step {
 	u := rapid.SampledFrom([]string{"u1", "u2"}).Draw(t, "user")
 	pw := func(l string) string { return rapid.SampledFrom(pwPool).Draw(t, l) }
+	// passwords offered when authenticating: the pool, and the stored form of a hashed password (its hex digest),
+	// which is not a password
+	apw := func(l string) string {
+		if rapid.IntRange(0, 5).Draw(t, l+"_digest") == 0 {
+			return sha(pw(l))
+		}
+		return pw(l)
+	}
 	c := rapid.IntRange(0, 2).Draw(t, "conn")
 	switch rapid.IntRange(0, 19).Draw(t, "kind") {
 	case 0, 1, 2, 3, 4:
+		if rapid.IntRange(0, 7).Draw(t, "editdefault") == 0 {
+			// the default user's own passwords: one is added, and sometimes the one from the configuration is removed
+			// in the same command (the administrator's connection stays authenticated; after a restart from the saved
+			// file it has to use what the file says)
+			np := rapid.SampledFrom([]string{"p1", "p2", "secret"}).Draw(t, "defpw")
+			cmd := []string{"ACL", "SETUSER", "default", ">" + np}
+			if rapid.IntRange(0, 1).Draw(t, "dropconf") == 1 {
+				cmd = append(cmd, "<adminpw")
+			}
+			return step{Kind: "admin", Cmd: cmd}
+		}
 		n := rapid.IntRange(1, 3).Draw(t, "ntok")
 		cmd := []string{"ACL", "SETUSER", u}
 		for i := 0; i < n; i++ {
@@ -245,12 +273,12 @@ func genStep(t *rapid.T, w *world) step {
 		return step{Kind: "reconnect", Conn: c}
 	case 10, 11, 12, 13:
 		target := rapid.SampledFrom([]string{"u1", "u2", "ghost", "default"}).Draw(t, "authuser")
-		return step{Kind: "auth", Conn: c, Cmd: []string{"AUTH", target, pw("apw")}}
+		return step{Kind: "auth", Conn: c, Cmd: []string{"AUTH", target, apw("apw")}}
 	case 14:
-		return step{Kind: "auth", Conn: c, Cmd: []string{"AUTH", pw("apw")}}
+		return step{Kind: "auth", Conn: c, Cmd: []string{"AUTH", apw("apw")}}
 	case 15, 16:
 		target := rapid.SampledFrom([]string{"u1", "u2", "ghost"}).Draw(t, "authuser")
-		cmd := []string{"HELLO", rapid.SampledFrom([]string{"2", "3"}).Draw(t, "proto"), "AUTH", target, pw("apw")}
+		cmd := []string{"HELLO", rapid.SampledFrom([]string{"2", "3"}).Draw(t, "proto"), "AUTH", target, apw("apw")}
 		if rapid.IntRange(0, 1).Draw(t, "setname") == 1 {
 			cmd = append(cmd, "SETNAME", "cli")
 		}
@@ -413,14 +441,17 @@ func runCase(t *rapid.T, replay []step, ext string) {
 				continue
 			}
 			w.stop()
-			w.start(t)
-			cycle = true
 			w.users = map[string]*user{}
 			for name, sv := range w.saved {
 				w.users[name] = sv.clone()
 			}
 			if _, ok := w.users["default"]; !ok {
 				w.users["default"] = &user{Enabled: true, Plain: map[string]bool{"adminpw": true}, Hash: map[string]bool{}}
+			}
+			w.start(t)
+			cycle = true
+			if w.adminAuthFailed != "" {
+				fail("%s", w.adminAuthFailed)
 			}
 			checkReported("after a restart with the saved ACL file")
 		case "reconnect":
